@@ -468,6 +468,53 @@ func runC03(w *World, r *Report) {
 	// the pack is sorted by source time before it is re-timed (resetMsgPackTimestamp hands out new times by index)
 	r.importRules(runC01, "C03-", map[string]bool{"C01-R7": true})
 
+	// ---------- R10: joining an existing channel entry never moves its clock back
+	r.Rule("C03-R10", "a second handler cannot set the channel clock back", "InitTSInfo: on an entry that already exists, cts is assigned the seek timestamp only under `cts == 0 || cts < c` (the store is dominated by a comparison of the entry's cts with the new value)", 1)
+	if it := w.Func(pkgReader, "tsManager", "InitTSInfo"); it != nil {
+		n := 0
+		eachInstr(it, func(in ssa.Instruction) {
+			st, ok := in.(*ssa.Store)
+			if !ok {
+				return
+			}
+			fa, ok := st.Addr.(*ssa.FieldAddr)
+			if !ok || fieldName(fa.X.Type(), fa.Field) != "cts" {
+				return
+			}
+			// existing entry: the base comes from channelTS2.Get, not from a literal
+			if _, isAl := baseObject(familyOf(it), fa.X).(*ssa.Alloc); isAl {
+				return
+			}
+			n++
+			guarded := false
+			for _, b := range it.Blocks {
+				cond, t, f, isIf := ifSuccs(b)
+				if !isIf {
+					continue
+				}
+				bo, isB := cond.(*ssa.BinOp)
+				if !isB {
+					continue
+				}
+				xp, yp := w.accessPath(bo.X), w.accessPath(bo.Y)
+				lt := (bo.Op == token.LSS && strings.HasSuffix(xp, ".cts") && bo.Y == st.Val) || (bo.Op == token.GTR && strings.HasSuffix(yp, ".cts") && bo.X == st.Val)
+				ge := (bo.Op == token.GEQ && strings.HasSuffix(xp, ".cts") && bo.Y == st.Val) || (bo.Op == token.LEQ && strings.HasSuffix(yp, ".cts") && bo.X == st.Val)
+				if lt && (t == st.Block() || t.Dominates(st.Block()) || blockReach(t, map[*ssa.BasicBlock]bool{f: true})[st.Block()]) && !blockReach(f, nil)[st.Block()] {
+					guarded = true
+				}
+				if ge && !blockReach(t, nil)[st.Block()] {
+					guarded = true
+				}
+			}
+			r.Check(guarded, "C03-R10", fmt.Sprintf("(*tsManager).InitTSInfo | cts of an existing entry #%d", n), st.Pos(), "only raised", "the clock of a channel that already has an entry is overwritten with the joining handler's seek time without comparing: a handler with an older checkpoint sets the shared clock back, and the next ticks and data on that channel go backwards")
+		})
+		if n == 0 {
+			r.Undecided("C03-R10", "(*tsManager).InitTSInfo | cts of an existing entry", it.Pos(), "no assignment of cts on an existing entry found")
+		}
+	} else {
+		r.Undecided("C03-R10", "InitTSInfo", 0, "anchor not found")
+	}
+
 	// ---------- R7
 	{
 		collects := calls("CollectTS")
